@@ -48,15 +48,21 @@ def has_break(line: str) -> bool:
 HEADER_TEXT = 'Hdr'
 
 
-def build(enc, textblock_cls):
-    """Build a fresh Python value from the encoding."""
+def build(enc, textblock_cls, shared=None):
+    """Build a fresh Python value from the encoding. ['=', k, sub] nodes with the same k inside one build
+    yield the SAME Python object (aliasing); the reference treats them like independent copies."""
+    shared = {} if shared is None else shared
     if enc is None:
         return None
+    if isinstance(enc, list) and enc and enc[0] == '=':
+        if enc[1] not in shared:
+            shared[enc[1]] = build(enc[2], textblock_cls, shared)
+        return shared[enc[1]]
     if isinstance(enc, dict):
         if 's' in enc:
             return enc['s']
         return enc['n'] if 'n' in enc else enc['b']
-    kind, kids = enc[0], [build(k, textblock_cls) for k in enc[1:]]
+    kind, kids = enc[0], [build(k, textblock_cls, shared) for k in enc[1:]]
     if kind == 'L':
         return kids
     if kind == 'D':
@@ -82,6 +88,8 @@ def ref_lines(enc, skip_empty=False, top=True):
     its header lines."""
     if enc is None:
         return {()}
+    if isinstance(enc, list) and enc and enc[0] == '=':
+        return ref_lines(enc[2], skip_empty, top)
     if isinstance(enc, dict):
         if 's' in enc:
             if enc['s'] == '':
@@ -133,6 +141,8 @@ def trim_ok(before, after, end_only=False):
 def contains_empty_string(enc) -> bool:
     if enc is None:
         return False
+    if isinstance(enc, list) and enc and enc[0] == '=':
+        return contains_empty_string(enc[2])
     if isinstance(enc, dict):
         return enc.get('s') == ''
     return any(contains_empty_string(k) for k in enc[1:])
